@@ -367,7 +367,9 @@ def check_convert_value(val: str, char: Characteristic) -> Any:
         # See https://github.com/home-assistant/core/issues/37083
         if char.minStep:
             with localcontext() as ctx:
-                ctx.prec = 6
+                # Six significant digits are kept for fractional (float) values only;
+                # integer formats must come out exact whatever their magnitude
+                ctx.prec = 6 if char.format not in INTEGER_TYPES else 60
 
                 # Python3 uses bankers rounding by default, so 28.5 rounds to 28, not 29.
                 # This is surprising for most people
